@@ -38,6 +38,34 @@ func (l liveCfg) bufSize() int {
 	return int(l.buf)
 }
 
+// livePause, when set in a worker on the virtual process clock (mon.FakeTime), makes runL1 and
+// l2.run really wait livePause[i] (time.Sleep on the process clock, not the delta argument or the
+// driver's Sleep) before chunk i is delivered: MIDI has no timeouts, what is decoded must not
+// depend on how much wall time passes between two deliveries.
+var livePause []time.Duration
+
+// ftSpentHours is the virtual time this worker has slept so far. The faketime clock is an int64 of
+// nanoseconds that starts in 2009 and overflows (the process then sleeps forever) about 250 years
+// later: pauses of days are only drawn while less than 60 years are spent (a drawn pause may be
+// slept several times: a check runs a stream on several levels and configurations).
+var ftSpentHours float64
+
+// drawPause draws a real pause for the virtual-clock groups.
+func drawPause(r *mon.Rand) time.Duration {
+	ms := r.Pick(1, 20, 500, 999, 1000, 1001, 1999, 2001, 3000, 5001, 10_000, 30_001, 61_000, 600_000, 3_600_001)
+	if r.P(1, 40) && ftSpentHours < 60*365*24 {
+		ms = r.Pick(90_000_000, 1<<31+5, 1<<32+7)
+	}
+	return time.Duration(ms) * time.Millisecond
+}
+
+func pauseBefore(i int) {
+	if mon.FakeTime && i < len(livePause) && livePause[i] > 0 && ftSpentHours < 200*365*24 {
+		ftSpentHours += livePause[i].Hours()
+		time.Sleep(livePause[i])
+	}
+}
+
 // runL1 feeds the chunks to a drivers.Reader and records every callback.
 func runL1(cfg liveCfg, chunks [][]byte, deltas []int32, out []obs) []obs {
 	out = out[:0]
@@ -47,6 +75,7 @@ func runL1(cfg liveCfg, chunks [][]byte, deltas []int32, out []obs) []obs {
 	})
 	for i, ch := range chunks {
 		cur = i
+		pauseBefore(i)
 		rd.EachMessage(ch, deltas[i])
 	}
 	return out
@@ -109,6 +138,7 @@ func (l *l2) run(cfg liveCfg, chunks [][]byte, deltas []int32) ([]obs, error) {
 	for i, ch := range chunks {
 		l.cur = i
 		l.drv.Sleep(time.Duration(deltas[i]) * time.Millisecond)
+		pauseBefore(i)
 		if err := l.out.Send(ch); err != nil {
 			return l.got, err
 		}
